@@ -118,6 +118,8 @@ def gen_case(rng, ctx):
         sz = None
         if kind == "absolute" and rng.random() < 0.4:
             sz = rng.choice(STRING_ZONES)
+        if kind == "relative" and rng.random() < 0.25:
+            sz = rng.choice(STRING_ZONES)  # "3 hours ago EST": now is taken in that zone
         interp = sz or A or zone
         zlist = [z for z in (interp, B, zone) if z]
         inst, near = draw_instant(rng, zlist)
@@ -129,12 +131,14 @@ def gen_case(rng, ctx):
             n = rng.randrange(0, 49) if unit == "hours" else rng.randrange(0, 3000)
             delta = dt.timedelta(**{unit: n})
             T = inst
-            # no offset change of the interpreting zone between T - delta and T (padded)
-            if interp not in ABBR and interp.replace(":", "") not in ABBR:
+            # no offset change, between T - delta and T (padded), of the zone the arithmetic happens in:
+            # the interpreting zone, or TIMEZONE when the string's own zone is converted to it first
+            arith = A if (sz and A) else interp
+            if arith.replace(":", "") not in ABBR:
                 lo, hi = T - delta - dt.timedelta(hours=3), T + dt.timedelta(hours=3)
-                if any(lo <= t <= hi for t in transitions(interp, T.year - 1, T.year + 1)):
+                if any(lo <= t <= hi for t in transitions(arith, T.year - 1, T.year + 1)):
                     continue
-            case.update({"clock_us": world.to_us(T), "string": "%d %s ago" % (n, unit), "instant": world.to_us(T - delta)})
+            case.update({"clock_us": world.to_us(T), "string": "%d %s ago" % (n, unit) + (" " + sz if sz else ""), "instant": world.to_us(T - delta)})
             return case
         # clock somewhere unrelated
         clock = dt.datetime(rng.randrange(1971, 2036), rng.randrange(1, 13), rng.randrange(1, 29), rng.randrange(24), rng.randrange(60))
